@@ -90,13 +90,30 @@ def run(rep):
         Q2 = 10 ** rng.uniform(0, 4) if rng.random() < 0.8 else rng.uniform(1, 10)
         a0 = rng.uniform(0.005, 0.08)
         r20 = 2.5 if rng.random() < 0.3 else rng.uniform(1, 10)
-        # every other theory repeats the previous scales and coupling with ANOTHER flavour number / order
-        # (hidden state keyed on part of the arguments shows only then)
-        if _prev and rng.random() < 0.5:
-            Q02, Q2, a0, r20, nf_prev = _prev[0]
-            nf = rng.choice([n_ for n_ in (3, 4, 5) if n_ != nf_prev])
-            rep.hist('scales', 'repeated with another nf')
-        _prev[:] = [(Q02, Q2, a0, r20, nf)]
+        # every other theory repeats the previous one with exactly ONE ingredient changed (hidden state keyed on
+        # part of the arguments shows only then)
+        if _prev and attempts > 2 * len(combos) and rng.random() < 0.5:
+            Q02_, Q2_, a0_, r20_, nf_, p_, scheme_ = _prev[0]
+            what = rng.choice(['nf', 'nf', 'coupling', 'coupling', 'Q02', 'Q2', 'r20', 'scheme', 'order'])
+            if what == 'nf':
+                nf_ = rng.choice([n_ for n_ in (3, 4, 5) if n_ != nf_])
+            elif what == 'coupling':
+                a0_ = a0
+            elif what == 'Q02':
+                Q02_ = Q02
+            elif what == 'Q2':
+                Q2_ = Q2
+            elif what == 'r20':
+                r20_ = r20 if r20 != r20_ else rng.uniform(1, 10)
+            elif what == 'scheme':
+                scheme_ = 'msbar' if scheme_ == 'csbar' else 'csbar'
+            else:
+                p_ = 1 - p_
+            Q02, Q2, a0, r20, nf, p, scheme = Q02_, Q2_, a0_, r20_, nf_, p_, scheme_
+            rep.hist('theory drawn', 'previous one with another ' + what)
+        else:
+            rep.hist('theory drawn', 'fresh')
+        _prev[:] = [(Q02, Q2, a0, r20, nf, p, scheme)]
         try:
             A = qcd.as2pf(p, nf, Q2, a0, r20)
             A0 = qcd.as2pf(p, nf, Q02, a0, r20)
@@ -138,11 +155,15 @@ def run(rep):
             continue
         if not (np.array_equal(lam_f, lam) and np.array_equal(lam_p, lam) and np.array_equal(pr_p, pr)):
             viol('rnlof-vs-projectors', 'rnlof and projectors/lambdaf disagree on the same gam0', info)
-        if scheme == 'csbar':
-            # process_class only selects the msbar non-diagonal branch
-            if not (np.array_equal(ev.evolop(th, jj, Q2, 'DVCS'), E) and
-                    np.array_equal(ev.evolopns(th, jn, Q2, 'DVCS'), En)):
-                viol('csbar-process-class', 'csbar operator depends on process_class', info)
+        # the operator the oracles O3, O4, O6 look at: any process class where the operator is the diagonal one
+        pco = rng.choice(['DIS', 'DVCS', 'DVMP']) if scheme == 'csbar' else 'DIS'
+        rep.hist('oracle process_class', pco + '/' + scheme)
+        try:
+            Eo, Eno = (E, En) if pco == 'DIS' else (ev.evolop(th, jj, Q2, pco), ev.evolopns(th, jn, Q2, pco))
+        except Exception as e:
+            viol('exception/' + type(e).__name__, 'evolution code raised %r for process_class=%s' % (e, pco), info)
+            continue
+        info_o = dict(info, process_class=pco)
 
         # ------------------------------------------------------------------ model vs code
         for k in range(len(jj)):
@@ -258,10 +279,10 @@ def run(rep):
 
         # O3: momentum sum at j=1 (second Mellin moment), diagonal operator
         km = len(jj) - 1
-        cs0 = E[km, 0].sum(axis=0)
-        cs1 = E[km, 1].sum(axis=0)
+        cs0 = Eo[km, 0].sum(axis=0)
+        cs1 = Eo[km, 1].sum(axis=0)
         dm0 = float(np.abs(cs0 - 1).max())
-        e1sc = float(np.abs(E[km, 1]).sum(axis=0).max())
+        e1sc = float(np.abs(Eo[km, 1]).sum(axis=0).max())
         dm1 = float(np.abs(cs1).max())
         # exact decomposition of the NLO column sum with the package's own objects:
         # (1,1)·E1 = −(1/β0) Σ_b er[c,b] ((1,1)·γ1) P_b R^(−λ_b/β0), c = the eigenvalue that is 0
@@ -274,24 +295,24 @@ def run(rep):
         if p == 1:
             track('momentum NLO |sum E1|/sum|E1|', dm1 / max(e1sc, 1e-300))
             track('momentum NLO decomposition residual/|E1|', dm1x / max(e1sc, 1e-6))
-        track('ns first moment |E0-1|', abs(En[len(jn) - 1, 0] - 1))
+        track('ns first moment |E0-1|', abs(Eno[len(jn) - 1, 0] - 1))
         rep.case('oracle.momentum', (tag, Q02, Q2, a0, r20), sample=dict(info, sumE0_minus_1=dm0, sumE1=dm1,
                                                                          E1scale=e1sc))
         if not dm0 <= 1e-12:
             viol('momentum/LO/' + tag, 'second-moment LO operator does not conserve momentum: column sums %s (%s)' % (
-                cs0, info), info, j='1')
+                cs0, info_o), info_o, j='1')
         if p == 1:
             rep.hist('momentum.log10(|sumE1|/|E1|)', int(math.floor(math.log10(max(dm1 / max(e1sc, 1e-300), 1e-20)))))
             if not (dm1 <= 1e-6 * e1sc + 1e-13 and dm1x <= 1e-9 * max(e1sc, 1e-6)):
                 viol('momentum/NLO/' + tag, 'NLO part of the second-moment operator does not sum to zero: column '
                      'sums %s, entries of size %g; residual against −(1/β0)Σ er·(colsum γ1)·P·R^(−λ/β0): %g (%s)' % (
-                         cs1, e1sc, dm1x, info), info, j='1')
+                         cs1, e1sc, dm1x, info_o), info_o, j='1')
         # O4: first non-singlet moment (j=0) conserved at LO
-        dns = abs(En[len(jn) - 1, 0] - 1)
+        dns = abs(Eno[len(jn) - 1, 0] - 1)
         rep.case('oracle.ns-first-moment', (tag, Q02, Q2, a0, r20), sample=dict(info, dev=float(dns)))
         if not dns <= 1e-13:
             viol('ns-first-moment/' + tag, 'first non-singlet moment is not conserved at LO: E0_NS(j=0)=%r (%s)' % (
-                En[len(jn) - 1, 0], info), info, j='0')
+                Eno[len(jn) - 1, 0], info_o), info_o, j='0')
 
         # O5: projector algebra on the contour
         P0, P1 = pr[:, 0], pr[:, 1]
@@ -318,20 +339,20 @@ def run(rep):
 
         def Etot(l):
             Q = math.exp(l)
-            Ex = ev.evolop(th, jj, Q, 'DIS')
+            Ex = ev.evolop(th, jj, Q, pco)
             return Ex[:, 0] + (Asf(l) * Ex[:, 1] if p == 1 else 0)
 
         def Entot(l):
             Q = math.exp(l)
-            Ex = ev.evolopns(th, jn, Q, 'DIS')
+            Ex = ev.evolopns(th, jn, Q, pco)
             return Ex[:, 0] + (Asf(l) * Ex[:, 1] if p == 1 else 0)
 
         dE = fd4(Etot, L, h)
         dEn = fd4(Entot, L, h)
-        Et = E[:, 0] + (A * E[:, 1] if p == 1 else 0)
-        Ent = En[:, 0] + (A * En[:, 1] if p == 1 else 0)
-        sc = (np.abs(gam0) @ np.abs(E[:, 0])).max(axis=(1, 2)) * A / 2
-        scn = np.maximum(np.abs(g0n * En[:, 0]), 1.0) * A / 2
+        Et = Eo[:, 0] + (A * Eo[:, 1] if p == 1 else 0)
+        Ent = Eno[:, 0] + (A * Eno[:, 1] if p == 1 else 0)
+        sc = (np.abs(gam0) @ np.abs(Eo[:, 0])).max(axis=(1, 2)) * A / 2
+        scn = np.maximum(np.abs(g0n * Eno[:, 0]), 1.0) * A / 2
         if p == 0:
             res = float((np.abs(dE + (A / 2) * gam0 @ Et).max(axis=(1, 2)) / sc).max())
             resn = float((np.abs(dEn + (A / 2) * g0n * Ent) / scn).max())
@@ -339,14 +360,14 @@ def run(rep):
             rep.case('oracle.rg-lo', (tag, Q02, Q2, a0, r20, tuple(idx)), sample=dict(info, rel=res, rel_ns=resn))
             if not (res <= 1e-8 and resn <= 1e-8):
                 viol('rg/LO/' + tag, 'dE/dlnmu2 + (as/4pi) gamma0 E = %g (NS %g) relative to |as/4pi gamma0 E| at LO (%s)' % (
-                    res, resn, info), info, j=[str(z) for z in jn])
+                    res, resn, info_o), info_o, j=[str(z) for z in jn])
         else:
             beta_pkg = b0 * A * A / 2 + b1 * A ** 3 / 4          # d(as/2pi)/dL from qcd.beta
             dA = fd4(Asf, L, h)
             resid = dE + ((A / 2) * gam0 + (A * A / 2) * gam1) @ Et
             residn = dEn + ((A / 2) * g0n + (A * A / 2) * g1n) * Ent
             # exact O(as^3) remainder (Props/C02.lean, rg_nlo): as^3 · [γ1 E1/2 − (β1/4) Σ_ab c_ab P_a r1 P_b]
-            rem = 0.5 * gam1 @ E[:, 1]
+            rem = 0.5 * gam1 @ Eo[:, 1]
             rf = R ** (-lam / b0)
             for a_ in range(2):
                 for b_ in range(2):
@@ -356,8 +377,15 @@ def run(rep):
                     rem = rem - (b1 / 4) * cab[:, None, None] * r1proj[:, a_, b_]
             r1n = (g1n - 0.5 / b0 * b1 * g0n) / b0
             rfn = R ** (-g0n / b0)
-            remn = 0.5 * g1n * En[:, 1] - (b1 / 4) * ((b0 - g0n) + g0n / R) / b0 * rfn * r1n
+            remn = 0.5 * g1n * Eno[:, 1] - (b1 / 4) * ((b0 - g0n) + g0n / R) / b0 * rfn * r1n
             # as a function of the coupling (removes the RK4 error of as2pf, which is C15's subject)
+            if dA == 0 or dA != dA:
+                # the coupling does not run at this scale: nothing to divide by; the comparison along the package's
+                # coupling (x_l below) decides
+                viol('rg/NLO/coupling-frozen/' + tag, 'qcd.as2pf(p=1) does not change with the scale around Q2=%g '
+                     '(d as/dlnQ2 = %r by finite differences, beta function gives %g): the operator cannot satisfy '
+                     'the RG equation (%s)' % (Q2, dA, beta_pkg, info), info)
+                continue
             resid_c = dE * (beta_pkg / dA) + ((A / 2) * gam0 + (A * A / 2) * gam1) @ Et
             residn_c = dEn * (beta_pkg / dA) + ((A / 2) * g0n + (A * A / 2) * g1n) * Ent
             x_c = float((np.abs(resid_c - A ** 3 * rem).max(axis=(1, 2)) / sc).max())
@@ -375,7 +403,7 @@ def run(rep):
             if not (x_c <= 1e-7 and xn_c <= 1e-7 and x_l <= 2e-4 and xn_l <= 2e-4):
                 viol('rg/NLO/' + tag, 'dE/dlnmu2 + (a γ0 + 2a² γ1)E (a=as/4pi) is not the O(as³) remainder: mismatch %g '
                      '(NS %g) relative to |a γ0 E|; with the RK4 coupling %g (NS %g) (%s)' % (
-                         x_c, xn_c, x_l, xn_l, info), info, j=[str(z) for z in jn])
+                         x_c, xn_c, x_l, xn_l, info_o), info_o, j=[str(z) for z in jn])
 
     rep.coverage['theories'] = done
     rep.coverage['worst_oracle_values'] = {k: float('%.3g' % v) for k, v in sorted(worst_o.items())}
